@@ -14,6 +14,7 @@ Tables also use unusual names (the empty string, '0', 'None', spaces), numpy-typ
 they are all 'close' to each other.
 Tables are also changed while a step is in progress (weights set to zero in place, through add_move under the existing
 name, or by a new entry): no weight-zero move may be chosen from the next slot on.
+Some tables carry weights normalised by hand to a few digits (their sum is one only to within 1e-4 .. 1e-8).
 """
 from __future__ import annotations
 
@@ -33,10 +34,11 @@ ASSUMPTIONS = [
     "tables whose due moves all have weight zero while free slots remain are outside the quantifier and are not generated",
     "distribution clause decided by binomial z (|z|>5 flagged, re-measured once with 4x the steps and fresh seed; violation only if flagged again with the same sign)",
 ]
-REQUIRED = {"tables_retuned_live": 12, "tables_changed_in_mid_step": 300, "slots_after_a_change_in_mid_step": 3000, "steps_checked": 2000, "steps_nothing_due": 20, "zero_weight_due_steps": 50, "guard_refusals": 10, "dist_tests_resolved": 20, "min_count_steps": 200}
+REQUIRED = {"tables_with_weights_normalised_by_hand": 10, "tables_retuned_live": 12, "tables_changed_in_mid_step": 300, "slots_after_a_change_in_mid_step": 3000, "steps_checked": 2000, "steps_nothing_due": 20, "zero_weight_due_steps": 50, "guard_refusals": 10, "dist_tests_resolved": 20, "min_count_steps": 200}
 SHARD_TIMEOUT = {"quick": 600, "thorough": 2400}
 
 WEIGHTS = [0.0, 1e-9, 1.0, 1.0, 10.0, 1e6, 0.3]
+COUNTS: dict = {}
 
 
 class ProbeMove:
@@ -119,6 +121,16 @@ def gen_table(rng, cycles=None, allow_zero_only=False):
             mc_ = int(rng.integers(0, budget + 1)) if rng.random() < 0.5 else 0
         budget -= mc_
         table.append({"name": f"m{i}", "interval": interval, "weight": w, "min": mc_})
+    if nm >= 2 and rng.random() < 0.15:
+        # weights a user has normalised by hand and typed in with a few digits (0.33333, 0.33333, 0.33333; 0.666667,
+        # 0.333333): they sum to one only to within 1e-4 .. 1e-8; all moves due at every step so that the sum is what it is
+        digits = int(rng.integers(4, 9))
+        p_ = rng.dirichlet(np.ones(nm)) if rng.random() < 0.5 else np.array([1.0 / nm] * nm)
+        for t_, w_ in zip(table, p_):
+            t_["weight"] = float(round(float(w_), digits))
+            t_["interval"] = 1
+        if all(t_["weight"] > 0 for t_ in table) and abs(sum(t_["weight"] for t_ in table) - 1.0) > 0:
+            COUNTS["tables_with_weights_normalised_by_hand"] = COUNTS.get("tables_with_weights_normalised_by_hand", 0) + 1
     if rng.random() < 0.25:
         # names are arbitrary strings: the empty string, a name that looks like a number, a long one with spaces
         for t_, nm_ in zip(table, rng.permutation(["", "0", "False", "a move with spaces", "None"])):
@@ -479,4 +491,6 @@ def run(spec):
     env.import_quansino()
     rec = Rec(spec["name"])
     {"tables": run_tables, "dist": run_dist, "guard": run_guard, "retune": run_retune, "midstep": run_midstep}[spec["mode"]](spec, rec)
+    for k_, v_ in COUNTS.items():
+        rec.count(k_, v_)
     return rec.out()
